@@ -22,7 +22,13 @@ connection b the same events, wire bytes included -- Proof/ChanFaultIso2*.v), ti
       and same abstract channel state after every scheduling block;
   (c) the property's monitor on the real traces: all single (quick) and double
       (thorough) fault placements over the socket calls of small scenarios x
-      seeded random / PCT / bounded exhaustive schedules.
+      seeded random / PCT / bounded exhaustive schedules; every errno of
+      errno.errorcode once per kind of call; accept-path faults x listener family /
+      peer-address shape x log_socket_errors x logging on/off, each followed by a
+      healthy client that must be served.
+The shape audit records the bodies of `except` handlers and `finally` blocks of the
+modelled methods IN FULL (string literals blinded), not only the watched names: what
+is evaluated while a fault is being handled can raise and escape the ladder.
 Findings F17 and F18 are repaired in /repo (8a2ea3a, da3bf3a): a regression of either
 flips a knob (Props/C13.v stops compiling), changes the audited shape, and is found by
 the search (listener closed / teardown by a worker / loop death, with scenario+schedule).
@@ -86,7 +92,8 @@ def run(ctx):
                     "now": {k: sig.get(k) for k in diff}, "expected": {k: H.EXPECTED_SHAPE.get(k) for k in diff}})
 
     stats = {"runs": 0, "tokens": 0, "listener_runs": 0, "conform_bad": 0, "fault_kinds": {}, "sched_kinds": {},
-             "scenarios": {}, "verdicts": {}, "in_f18_class": 0, "in_f17_class": 0, "problems_outside": 0}
+             "scenarios": {}, "verdicts": {}, "in_f18_class": 0, "in_f17_class": 0, "problems_outside": 0,
+             "listener_families": {}, "listener_log_records_formatted": 0, "listener_log_format_errors": 0}
     nontrivial = set()
     samples = []
     f18_seen = []
@@ -196,6 +203,22 @@ def run(ctx):
                 pol = RandomPolicy(random.Random(seed), stay=0.5) if seed % 2 else PCTPolicy(random.Random(seed), 2, 80)
                 one_run(case, "random" if seed % 2 else "pct", policy=pol, reference=ref, pls=[a, b])
 
+    # errno sweep: EVERY errno the platform knows (errno.errorcode), once per kind of call -- a send() made by a worker
+    # (write_soon's flush, do_close=False), a send() made by the I/O thread, a recv().  The model's classes (disconnect /
+    # would-block / anything else) are fixed in the harness from the model, so an errno that changes class in the source
+    # is a concrete disagreement (scenario + placement + schedule), not only a changed audit signature.
+    stats["errno_sweep_runs"] = 0
+    for scn, what, ks in (("worker-flush", "send", (0, 2)), ("get-close", "send", (0,)), ("get-close", "recv", (0, 1))):
+        base = {"scenario": scn, "n_workers": 1}
+        for i, e in enumerate(H.ALL_ERRNOS):
+            if e in H.FAULT_ERRNOS:
+                continue          # part of the exhaustive placements above
+            for k in (ks if thorough else (ks[i % len(ks)],)):
+                pl = (7, what, k, e)
+                note_fault([pl])
+                stats["errno_sweep_runs"] += 1
+                one_run(H.apply_placements(base, [pl]), "errno-sweep", pls=[pl])
+
     # exceptional conditions answered by getsockopt(SO_ERROR)
     for plan in ([0], [errno.ECONNRESET], [["err", errno.EBADF]], [["err", errno.EINVAL]]):
         for up in (False, True):
@@ -224,12 +247,17 @@ def run(ctx):
     # ---- the listener world -----------------------------------------------------------
     lst_ok = [True]
 
-    def listener_run(steps, tag):
-        w = H.ListenerWorld(H.simple_app({}), steps, adj_kw=dict(H.ADJ0))
+    def listener_run(steps, tag, family="inet", lse=True, logging_on=False, must_serve=()):
+        w = H.ListenerWorld(H.simple_app({}), steps, adj_kw=dict(H.ADJ0), family=family, log_socket_errors=lse,
+                            logging_on=logging_on)
         toks, exps = w.run()
         stats["listener_runs"] += 1
+        stats["listener_families"][family] = stats["listener_families"].get(family, 0) + 1
+        stats["listener_log_records_formatted"] += w.log_records
+        stats["listener_log_format_errors"] += w.log_format_errors
         js = [[(x.hex() if isinstance(x, (bytes, bytearray)) else x) for x in st] for st in steps]
-        replay = {"world": "listener", "steps": js, "failing_input_found": True}
+        replay = {"world": "listener", "steps": js, "family": family, "log_socket_errors": lse, "logging_on": logging_on,
+                  "must_serve": list(must_serve), "failing_input_found": True}
         ans = runner.query([H.run_line_listener(w, toks, wc_close, init_guarded)])[0] if toks else ""
         d = H.compare_listener(toks, exps, ans) if toks else None
         stats["tokens"] += len(toks)
@@ -238,27 +266,49 @@ def run(ctx):
             stats["conform_bad"] += 1
             ctx.report("conform-l:" + hashlib.sha1(d.encode()).hexdigest()[:8], "model and implementation disagree (listener world): " + d,
                        dict(replay, expected="the model's labels and state", observed=d, check="conformance"))
-        problems, setup_fault = H.listener_monitor(w, exps)
-        nontrivial.add(("listener", tag, hashlib.sha1(repr(toks).encode()).hexdigest()[:12]))
+        problems, setup_fault = H.listener_monitor(w, exps, must_serve)
+        nontrivial.add(("listener", tag, family, lse, hashlib.sha1(repr(toks).encode()).hexdigest()[:12]))
         if setup_fault:
             stats["in_f17_class"] += 1
         if problems:
             lst_ok[0] = False
             stats["problems_outside"] += 1
-            ctx.report("listener:" + tag, "C13 monitor (listener world): %r" % (problems[:3],),
-                       dict(replay, expected="listener and trigger stay in the socket map", observed=[list(map(str, p)) for p in problems],
+            ctx.report("listener:%s:%s" % (tag, family), "C13 monitor (listener world, %s listener, log_socket_errors=%s): %r" % (
+                           family, lse, problems[:3]),
+                       dict(replay, expected="listener and trigger stay in the socket map, the loop alive, the next client served",
+                            observed=[list(map(str, p)) for p in problems],
                             check="monitor", setup_fault=setup_fault))
 
+    # accept-path faults x listener family / peer-address shape x log_socket_errors x logging enabled: after the fault the
+    # listener and the trigger are still polled, the loop is alive and the NEXT client is accepted and served
     setup_calls = ("setsockopt", "getsockopt", "setblocking")
-    for call in setup_calls:
-        for e in H.FAULT_ERRNOS:
-            note_fault([(0, "setup-" + call, 0, e)])
-            listener_run([("connect", {call: e}), ("turn",), ("connect", None), ("turn",), ("send", 8, H.GET), ("turn",),
-                          ("serve", 8), ("turn",), ("turn",)], "%s/%s" % (call, _errno_name(e)))
-    for e in H.FAULT_ERRNOS + [errno.EWOULDBLOCK, errno.ECONNABORTED]:
+
+    def setup_fault_run(call, e, fam, lse, lo):
+        note_fault([(0, "setup-" + call, 0, e)])
+        listener_run([("connect", {call: e}), ("turn",), ("connect", None), ("turn",), ("send", 8, H.GET), ("turn",),
+                      ("serve", 8), ("turn",), ("turn",)], "%s/%s" % (call, _errno_name(e)), fam, lse, lo, must_serve=(8,))
+
+    def accept_fault_run(e, fam, lse, lo):
         note_fault([(0, "accept", 0, e)])
         listener_run([("accept_err", e), ("turn",), ("connect", None), ("turn",), ("send", 7, H.GET), ("turn",), ("serve", 7),
-                      ("turn",), ("close", 7), ("turn",), ("turn",)], "accept/%s" % _errno_name(e))
+                      ("turn",), ("close", 7), ("turn",), ("turn",)], "accept/%s" % _errno_name(e), fam, lse, lo, must_serve=(7,))
+
+    for fam in H.FAMILIES:
+        for lse in (True, False):
+            for lo in (False, True):
+                for call in setup_calls:
+                    for e in H.FAULT_ERRNOS:
+                        setup_fault_run(call, e, fam, lse, lo)
+                for e in H.FAULT_ERRNOS + [errno.EWOULDBLOCK, errno.ECONNABORTED, "typeerror"]:
+                    accept_fault_run(e, fam, lse, lo)
+    # ... and every errno the platform knows on each of the four calls (families and log settings in rotation)
+    fams = list(H.FAMILIES)
+    for i, e in enumerate(H.ALL_ERRNOS):
+        if e in H.FAULT_ERRNOS:
+            continue
+        for j, call in enumerate(setup_calls):
+            setup_fault_run(call, e, fams[(i + j) % len(fams)], (i + j) % 4 != 3, (i + j) % 2 == 0)
+        accept_fault_run(e, fams[(i + 3) % len(fams)], True, i % 2 == 1)
     # two connections, faults on the first while the second is served
     for e in H.FAULT_ERRNOS:
         for what in ("recv", "send", "soerr"):
@@ -267,7 +317,8 @@ def run(ctx):
             note_fault([(7, what, 0, e)])
             listener_run([("connect", None), ("connect", None), ("turn",), ("turn",), ("send", 7, H.GET + H.POSTH), ("send", 8, H.GET),
                           ("turn",), plan, ("oob", 7) if what == "soerr" else ("turn",), ("serve", 7), ("serve", 8), ("turn",), ("turn",),
-                          ("close", 8), ("turn",), ("turn",)], "two/%s/%s" % (what, _errno_name(e)))
+                          ("close", 8), ("turn",), ("turn",)], "two/%s/%s" % (what, _errno_name(e)),
+                         fams[stats["listener_runs"] % len(fams)], True, stats["listener_runs"] % 2 == 0, must_serve=(8,))
     nl = 300 if thorough else 40
     for _ in range(nl):
         steps = []
@@ -277,7 +328,7 @@ def run(ctx):
             if c < 0.2 and nconn < 2:
                 f = None
                 if rng.random() < 0.35:
-                    f = {rng.choice(setup_calls): rng.choice(H.FAULT_ERRNOS)}
+                    f = {rng.choice(setup_calls): rng.choice(H.FAULT_ERRNOS if rng.random() < 0.6 else H.ALL_ERRNOS)}
                 steps.append(("connect", f))
                 nconn += 1
             elif c < 0.27:
@@ -298,7 +349,7 @@ def run(ctx):
             else:
                 steps.append(("turn",))
         steps += [("turn",), ("turn",)]
-        listener_run(steps, "random")
+        listener_run(steps, "random", rng.choice(fams), rng.random() < 0.75, rng.random() < 0.5)
 
     # ---- the model's own explorer --------------------------------------------------------
     maxs = 400000 if thorough else 60000
@@ -339,8 +390,13 @@ def run(ctx):
         "rule": "scheduler world: %d scenarios (1-2 connections, 1-2 requests, pipelined / expecting / pending output / app failure / OOB / HUP) x "
                 "every single fault placement (6 errno kinds + partial send on every recv/send call of the fault-free run) under the default schedule "
                 "and %s seeded random/PCT schedule(s), %s sampled pairs of placements per scenario, bounded exhaustive exploration (iterative "
-                "pre-emption bounding) of two faulted scenarios; listener world: every errno on accept / setsockopt / getsockopt(SO_SNDBUF) / "
-                "setblocking, faults on one of two connections, seeded random event histories. Non-trivial = distinct (scenario, placement, "
+                "pre-emption bounding) of two faulted scenarios, plus an errno sweep: every errno of errno.errorcode on a worker-side send, an "
+                "I/O-side send and a recv; listener world: {6 fixed errnos on setsockopt / getsockopt(SO_SNDBUF) / setblocking, 9 outcomes "
+                "of accept incl. EWOULDBLOCK / ECONNABORTED / TypeError} x 6 listener families and peer-address shapes (AF_INET 2-tuple, "
+                "AF_INET6 4-tuple, AF_UNIX '' / None / path / bytes) x log_socket_errors on/off x logging disabled / enabled with a "
+                "formatting handler, each followed by a healthy client that must be accepted and served; every errno of errno.errorcode "
+                "on each of the four calls (families in rotation); faults on one of two connections, seeded random event histories over "
+                "random families. Non-trivial = distinct (scenario, placement, "
                 "schedule kind, teardown/wire event sequence) with a fault placed or a teardown observed" % (
                     len(names), "6" if thorough else "1", "400" if thorough else "12"),
         "samples": samples,
@@ -357,6 +413,12 @@ def run(ctx):
         "runs_with_handle_close_entered_twice_on_io_thread": stats.get("double_handle_close_on_io", 0),
         "runs_with_worker_side_send_continue": stats["in_f18_class"],
         "listener_runs_with_setup_fault": stats["in_f17_class"],
+        "listener_runs": stats["listener_runs"],
+        "listener_families": stats["listener_families"],
+        "listener_log_records_formatted": stats["listener_log_records_formatted"],
+        "listener_log_format_errors_swallowed_by_logging": stats["listener_log_format_errors"],
+        "errno_sweep_runs": stats["errno_sweep_runs"],
+        "errnos_injected": len(H.ALL_ERRNOS),
         "wc_close_read_from_source": wc_close,
         "init_guarded_read_from_source": init_guarded,
         "shape_digest": H.shape_digest(sig),
@@ -380,11 +442,12 @@ def replay(data):
             if st[0] == "plan":
                 st[3] = {int(k): v for k, v in (st[3] or {}).items()}
             steps.append(tuple(st))
-        w = H.ListenerWorld(H.simple_app({}), steps, adj_kw=dict(H.ADJ0))
+        w = H.ListenerWorld(H.simple_app({}), steps, adj_kw=dict(H.ADJ0), family=data.get("family", "inet"),
+                            log_socket_errors=data.get("log_socket_errors", True), logging_on=data.get("logging_on", False))
         toks, exps = w.run()
-        problems, setup_fault = H.listener_monitor(w, exps)
-        print("listener world: tokens=%r\nproblems now: %r (set-up fault present: %s)\nexpected: %s" % (
-            toks, problems, setup_fault, data.get("expected")))
+        problems, setup_fault = H.listener_monitor(w, exps, data.get("must_serve") or ())
+        print("listener world (%s listener, log_socket_errors=%s): tokens=%r\nproblems now: %r (set-up fault present: %s)\nexpected: %s" % (
+            w.family, data.get("log_socket_errors", True), toks, problems, setup_fault, data.get("expected")))
         return 1 if problems else 0
     if data.get("world") == "fault":
         w = H.make_world(data["case"], schedule=data.get("choices") or ())
